@@ -74,7 +74,7 @@ type Store struct {
 	// FailPinOnce makes the next Pin().Add fail with ErrIO.
 	FailPinOnce bool
 	addCalls    int
-	Hooks     *Hooks
+	Hooks       *Hooks
 	// OnAdd, when set, is called after every successful first-time write (store closure checks).
 	OnAdd func(s *Store, c cid.Cid)
 	// Visible limits Get to the first Visible writes (-1: everything); used for crash-point snapshots.
